@@ -88,6 +88,8 @@ PLAN = {
     },
     "C17": {
         "quick": [S("hook-default"), S("m2-default-unsafe", tag="children"),
+                  # the table-based (no SIMD) parsers in the overflow-checks build
+                  S("dbg-nosimd", tag="dbg-nosimd-c05", check="C05", only="dev1"),
                   # a Serializer that changes its is_human_readable() answer, in the serde + unsafe build (str via from_utf8_unchecked)
                   S("serde-unsafe", tag="serde-flip", check="C16", only="flipping"),
                   # concurrent first calls under Miri's data-race detector: 10 groups, one interpreter process each
